@@ -49,15 +49,15 @@ GEN_RULE = ("scripts are generated from one splitmix64 state (VERIF_SEED) with t
 prop("C01", "proof", "Lean theorems: the greedy loop invariant (independent of the search structure) gives round-trip for the six greedy parsers; the model is tied to the Go code by executing both on the same scripts; Go oracle re-expands every block",
      "Lean 4 loop-invariant proof + model/impl differential correspondence",
      [S("p-general", 300, 6000, ["p.parse.matches", "p.shrink.effective", "p.reset.data", "p.parse.ntl.truncated"]),
-      S("u-units", 100, 2000, ["u.ulcp", "u.ulcs"]), S("p-exhaustive", 5355, 42987, []), S("p-large", 2, 60, ["p.parse.matches", "p.match.offset>=64K"], hang="120s")],
+      S("u-units", 100, 2000, ["u.ulcp", "u.ulcs"]), S("p-exhaustive", 5355, 42987, []), S("p-large", 4, 80, ["p.parse.matches", "p.match.offset>=64K"], hang="120s")],
      "trusted: Lean kernel, theorem statements, harness+extractor; byte comparison tricks modelled at byte level (tied by u-units)", GEN_RULE, "§8 C01")
 prop("C02", "proof", "Lean theorem on emitted sequences (offset within window and position, minimum length, Aux 0, LitLen sum) from the probe contract; oracle checks every sequence of every generated block",
      "Lean 4 proof of the probe contract + differential correspondence",
-     [S("p-general", 300, 6000, ["p.parse.matches", "p.match.offset=window"]), S("p-exhaustive", 5355, 42987, []), S("p-large", 2, 60, ["p.parse.matches"], hang="120s")],
+     [S("p-general", 300, 6000, ["p.parse.matches", "p.match.offset=window"]), S("p-exhaustive", 5355, 42987, []), S("p-large", 4, 80, ["p.parse.matches"], hang="120s")],
      "as C01", GEN_RULE, "§8 C02")
 prop("C03", "proof", "Lean theorems on Parse accounting (n, ErrEmptyBuffer, NoTrailingLiterals) from finishBlock; oracle compares n with Block.Len and the remaining input",
      "Lean 4 proof + differential correspondence",
-     [S("p-general", 300, 6000, ["p.parse.ntl.truncated", "p.parse.literalonly", "p.parse.empty"]), S("p-exhaustive", 5355, 42987, []), S("p-large", 2, 60, ["p.parse.matches"], hang="120s"), S("p-bigbuf", 8, 200, ["p.bigbuf"])],
+     [S("p-general", 300, 6000, ["p.parse.ntl.truncated", "p.parse.literalonly", "p.parse.empty"]), S("p-exhaustive", 5355, 42987, []), S("p-large", 4, 80, ["p.parse.matches"], hang="120s"), S("p-bigbuf", 8, 200, ["p.bigbuf"])],
      "as C01", GEN_RULE, "§8 C03")
 prop("C04", "proof", "refinement of the DecoderBuffer model to an append-only byte log (all growth functions) incl. the doubling copy; model tied by differential scripts that compare len, R, Off, BufferSize and cap after every operation",
      "Lean 4 refinement proof + differential correspondence",
@@ -75,12 +75,12 @@ prop("C06", "proof", "the Decoder retry loops are total Lean functions whose spi
      "assumes the destination writer returns", GEN_RULE, "§8 C06")
 prop("C07", "proof", "composition of the parser-side well-formedness and decoder acceptance theorems; partial: sequences with LitLen+MatchLen > BufferSize-WindowSize are refused (known finding); parser blocks are piped into Decoders with the same window",
      "Lean 4 proof (partial) + parser→decoder pipeline correspondence",
-     [S("c07", 300, 5000, ["c07.roundtrip.ok", "c07.block"]), S("d-large", 2, 60, ["d.large", "d.wblk.ok"], hang="60s"), S("p-large", 2, 60, ["p.parse.matches", "p.match.offset>=64K"], hang="120s")],
+     [S("c07", 300, 5000, ["c07.roundtrip.ok", "c07.block"]), S("d-large", 2, 60, ["d.large", "d.wblk.ok"], hang="60s"), S("p-large", 4, 80, ["p.parse.matches", "p.match.offset>=64K"], hang="120s")],
      "known finding: errMatchLen for g > BufferSize-WindowSize", GEN_RULE, "§8 C07")
 prop("C08", "proof", "Wrap as a derived machine of the parser model; ReadFrom chunking independence and no-panic proved on PBuf; reader scripts with short reads, EOF with data and errors",
      "Lean 4 proof on the buffer model + differential correspondence with scripted readers",
      [S("p-wrap", 300, 5000, ["w.eof", "w.readererr", "w.shrunk"]), S("p-bigbuf", 8, 200, ["p.bigbuf", "p.readfrom.full"]),
-      S("p-large", 2, 60, ["p.large.wrap"], hang="120s")],
+      S("p-large", 4, 80, ["p.large.wrap"], hang="120s")],
      "assumes readers never return (0, nil) forever", GEN_RULE, "§8 C08")
 prop("C09", "proof", "suffix.Sort is certified per input against the Lean specification saSpec (sorted permutation, proved unique); LCP (Kasai) and InvertSA are modelled exactly and proved correct in Lean",
      "Lean 4 proof (Kasai, InvertSA) + per-input certification of Sort against a verified specification",
@@ -102,7 +102,7 @@ prop("C12", "proof", "rank-neighbour maximality (sandwich lemma) proved in Lean;
 prop("C13", "proof", "Reset clears every search structure in the model (tied by correspondence on post-Reset behaviour and twin comparison with a fresh parser); no shared mutable state is a decide-d fact over the regenerated package variables",
      "Lean 4 facts over regenerated source data + twin-parser differential runs",
      [S("p-reset", 300, 5000, ["p.twin.fresh", "p.twin.blocks"]), S("p-reset-stale", 300, 5000, ["p.twin.fresh", "p.twin.blocks"]),
-      S("p-reset-sa", 60, 1200, ["p.twin.fresh", "p.twin.blocks"]), S("p-large", 2, 60, ["p.parse.matches", "p.match.offset>=64K"], hang="120s")],
+      S("p-reset-sa", 60, 1200, ["p.twin.fresh", "p.twin.blocks"]), S("p-large", 4, 80, ["p.parse.matches", "p.match.offset>=64K"], hang="120s")],
      "schedules clause reduced to the absence of package-level mutable state (syntactic criteria of the extractor)", GEN_RULE, "§8 C13")
 prop("C14", "proof", "Parse(nil) accounting and drain theorem in Lean; generator with raised Parse(nil) weight; later blocks checked against a decoder that got the skipped bytes verbatim",
      "Lean 4 proof + differential correspondence",
@@ -115,7 +115,7 @@ prop("C15", "proof", "refinement of ParserBuffer to (fed, Off) with the 7-byte m
      "as C01", GEN_RULE, "§8 C15")
 prop("C16", "proof", "NewParser ⇔ Verify∘SetDefaults over Int fields; the bodies of every SetDefaults/Verify are re-translated from the Go source on every run and proved equal to the model (GenProps); panic guards in the model are values; boundary configurations through several fills under recover and watchdog; large geometries (oracle only)",
      "Lean 4 proof + regenerated Go->Lean translation of the configuration code + differential correspondence on wild configurations",
-     [S("c-config", 300, 5000, ["c.newparser.accepted", "c.newparser.rejected"]), S("p-general", 200, 3000, ["p.parse.matches"]), S("p-wrap", 100, 1500, ["w.eof"]), S("p-large", 2, 60, ["p.parse.matches", "p.match.offset>=64K"], hang="120s")],
+     [S("c-config", 300, 5000, ["c.newparser.accepted", "c.newparser.rejected"]), S("p-general", 200, 3000, ["p.parse.matches"]), S("p-wrap", 100, 1500, ["w.eof"]), S("p-large", 4, 80, ["p.parse.matches", "p.match.offset>=64K"], hang="120s")],
      "BufferSize ≤ MaxInt32 for GSAP/OSAP is a stated bound (D18)", GEN_RULE, "§8 C16")
 prop("C17", "proof", "n, k, l and Off exactness as part of the decoder refinement; scripts biased to a full buffer with already-read bytes",
      "Lean 4 refinement proof + differential correspondence",
@@ -127,7 +127,7 @@ prop("C18", "proof", "writer scripts with every placement of short writes and er
      "as C06", GEN_RULE, "§8 C18")
 prop("C19", "proof", "right/left maximality from k = lcpLen exactly (Lean); run clause decided by proof for all seven parsers: proved for every reachable state of HP, BHP, DHP (table freshness invariant), OSAP (exchange argument on C11) and GSAP with BufferSize <= WindowSize; refuted with kernel-checked witnesses and bounded for BUP, BDHP and GSAP(BufferSize > WindowSize), which are known findings; run-heavy and large-geometry scripts search the implementation",
      "Lean 4 proof (maximality, freshness invariant over all histories, exchange argument) + run-heavy differential correspondence",
-     [S("p-runs", 300, 5000, ["p.runblock", "p.match.toblockend"]), S("p-general", 100, 2000, ["p.match.backcheck"]), S("p-large", 2, 60, ["p.parse.matches", "p.match.offset>=64K"], hang="120s")],
+     [S("p-runs", 300, 5000, ["p.runblock", "p.match.toblockend"]), S("p-general", 100, 2000, ["p.match.backcheck"]), S("p-large", 4, 80, ["p.parse.matches", "p.match.offset>=64K"], hang="120s")],
      "run clause for BUP, BDHP, GSAP(BufferSize > WindowSize): known findings with proven upper bounds; OSAP under Int32OK (D18)", GEN_RULE, "§8 C19, §13.2")
 prop("C20", "proof", "JSON round trip generic over the regenerated schema (union covers fields, tags injective by decide), SetDefaults idempotence (model proved equal to the re-translated Go bodies, GenProps), reported configuration; arbitrary JSON documents compared with encoding/json",
      "Lean 4 proof over the regenerated schema and the regenerated Go->Lean translation + differential correspondence with encoding/json",
